@@ -195,6 +195,44 @@ pub fn bytes_of_i64(x: &[i64]) -> Vec<u8> {
 }
 
 
+/// CKKS queries are only implemented for the reference back ends in the pinned tree
+pub trait CkksTb: poulpy_hal::layouts::Backend {
+    fn shift_norm(_m: &poulpy_hal::layouts::Module<Self>) -> Option<usize> {
+        None
+    }
+    fn shift(_m: &poulpy_hal::layouts::Module<Self>) -> Option<usize> {
+        None
+    }
+}
+macro_rules! ckks_tb_impl {
+    ($BE:ty) => {
+        impl CkksTb for $BE {
+            fn shift_norm(module: &poulpy_hal::layouts::Module<Self>) -> Option<usize> {
+                use poulpy_ckks::leveled::{CKKSAddOps, CKKSNegOps, CKKSPow2Ops, CKKSRescaleOps, CKKSSubOps};
+                let t = module.ckks_add_tmp_bytes();
+                // the whole shift/normalize family must return the same number
+                let all = [module.ckks_sub_tmp_bytes(), module.ckks_add_pt_const_tmp_bytes(), module.ckks_sub_pt_const_tmp_bytes()];
+                Some(if all.iter().any(|x| *x != t) { usize::MAX } else { t })
+            }
+            fn shift(module: &poulpy_hal::layouts::Module<Self>) -> Option<usize> {
+                use poulpy_ckks::leveled::{CKKSNegOps, CKKSPow2Ops, CKKSRescaleOps};
+                let t = module.ckks_neg_tmp_bytes();
+                let all = [
+                    module.ckks_mul_pow2_tmp_bytes(),
+                    module.ckks_div_pow2_tmp_bytes(),
+                    module.ckks_rescale_tmp_bytes(),
+                    module.ckks_align_tmp_bytes(),
+                ];
+                Some(if all.iter().any(|x| *x != t) { usize::MAX } else { t })
+            }
+        }
+    };
+}
+ckks_tb_impl!(poulpy_cpu_ref::FFT64Ref);
+ckks_tb_impl!(poulpy_cpu_ref::NTT120Ref);
+impl CkksTb for poulpy_cpu_avx::FFT64Avx {}
+impl CkksTb for poulpy_cpu_avx::NTT120Avx {}
+
 macro_rules! backend_cases {
     ($modname:ident, $BE:ty) => {
         pub mod $modname {
@@ -314,6 +352,16 @@ macro_rules! backend_cases {
                     }
                     "glwe_trace" => module.glwe_trace_tmp_bytes(&res, &a, &gglwe),
                     "glwe_trace_assign" => module.glwe_trace_tmp_bytes(&res, &res, &gglwe),
+                    "cmux" => {
+                        use poulpy_bin_fhe::bdd_arithmetic::Cmux;
+                        module.cmux_tmp_bytes(&res, &res, &ggsw)
+                    }
+                    "execute_bdd" => {
+                        use poulpy_bin_fhe::bdd_arithmetic::ExecuteBDDCircuit;
+                        kv.g("threads") * module.execute_bdd_circuit_tmp_bytes(&res, kv.g("state"), &ggsw)
+                    }
+                    "ckks_shift_norm" => <BE as super::CkksTb>::shift_norm(module)?,
+                    "ckks_shift" => <BE as super::CkksTb>::shift(module)?,
                     "gglwe_encrypt_sk" => module.gglwe_encrypt_sk_tmp_bytes(&gglwe),
                     "ggsw_encrypt_sk" => module.ggsw_encrypt_sk_tmp_bytes(&ggsw),
                     _ => return None,
@@ -659,7 +707,12 @@ pub fn run(_args: &[String]) {
         match r {
             Ok(Some(s)) => writeln!(out, "{id} {s}").unwrap(),
             Ok(None) => writeln!(out, "{id} bad-op").unwrap(),
-            Err(_) => writeln!(out, "{id} setup-panic").unwrap(),
+            Err(_) => {
+                if std::env::var("VERIF_DEBUG").is_ok() {
+                    LAST_PANIC.with(|p| eprintln!("setup panic: {}", p.borrow()));
+                }
+                writeln!(out, "{id} setup-panic").unwrap()
+            }
         }
     }
     out.flush().unwrap();
